@@ -5,10 +5,11 @@
   * the **pager lock** — `SharedPager = Arc<RwLock<Pager>>`, always taken with `.write()`: one holder at a time.  A page
     fetch is `let frame = self.pager.write().read_page(id)?;` (tree/bplustree.rs:223): the guard is a temporary of that
     statement, so the lock is taken and released *before* the latch of the page is requested (line 224-227).
-  * **page latches** — `Frame.inner : Arc<parking_lot::RwLock<page>>` (multithreading/frames.rs:22-68).  `read_arc()` /
-    `write_arc()` block.  parking_lot's lock is *fair*: a reader is not admitted while a writer is parked on the lock, even
-    if only readers hold it; it is not re-entrant (a second `read` of a thread that already holds a read guard waits like
-    any other reader, a `write` of a thread that holds any guard waits for ever).
+  * **page latches** — `Frame.inner : Arc<parking_lot::RwLock<page>>` (multithreading/frames.rs:22-68).  `write_arc()`
+    waits until nobody holds a guard (a `write` of a thread that itself holds a guard waits for ever).  Read latches are
+    taken with `read_arc_recursive()`: a reader is admitted whenever no writer *holds* the lock.  As shipped they were
+    taken with `read_arc()`, which under parking_lot's *fair* policy is not admitted while a writer is parked on the
+    lock — even if the requester already holds a read guard of it (`Defects.readLatchQueuesBehindWriter`).
 
   Thread programs (`Instr`): `lockPager`, `unlockPager`, `acq p m` (request the latch of page `p` in mode `m` and wait for
   it), `rel p` (drop one guard of page `p`: `Accessor::release`, end of scope of a temporary tree), `relAll`
@@ -45,6 +46,16 @@ structure Thread where
 
 abbrev State := List Thread
 
+/-- deviations of the shipped code from the latch protocol the theorems are about -/
+structure Defects where
+  /-- `ReadLatch::new` took the latch with `read_arc()`: under parking_lot's fair policy a read request queues behind a
+      parked writer even when the requesting thread already holds a read guard of that page (fixed: `read_arc_recursive`,
+      which admits a reader whenever no writer *holds* the lock) -/
+  readLatchQueuesBehindWriter : Bool := false
+  deriving Repr
+
+def Defects.none : Defects := {}
+
 def Thread.start (prog : List Instr) : Thread := ⟨prog, [], false, false⟩
 
 def init (progs : List (List Instr)) : State := progs.map Thread.start
@@ -68,18 +79,19 @@ def relOne (p : Nat) : List (Nat × Mode) → List (Nat × Mode)
 
 /-- can a *parked* request of mode `m` for page `p` be granted in state `s`?
     write: nobody (the requester included) holds a guard of `p`;
-    read: nobody holds the write guard of `p` and no thread is parked on `p` for writing (fairness). -/
-def grantable (s : State) (p : Nat) : Mode → Bool
+    read: nobody holds the write guard of `p` — and, with the defect (fair, non-re-entrant read lock), no thread is parked
+    on `p` for writing. -/
+def grantable (D : Defects) (s : State) (p : Nat) : Mode → Bool
   | .W => s.all (fun t => !t.holds p)
-  | .R => s.all (fun t => !t.holdsW p && !t.parkedW p)
+  | .R => s.all (fun t => !t.holdsW p && !(D.readLatchQueuesBehindWriter && t.parkedW p))
 
 /-- can thread `t` of state `s` take its next step? -/
-def enabled (s : State) (t : Thread) : Bool :=
+def enabled (D : Defects) (s : State) (t : Thread) : Bool :=
   match t.prog with
   | [] => false
   | .lockPager :: _ => s.all (fun u => !u.pager)
   | .unlockPager :: _ => true
-  | .acq p m :: _ => if t.waiting then grantable s p m else true
+  | .acq p m :: _ => if t.waiting then grantable D s p m else true
   | .rel _ :: _ => true
   | .relAll :: _ => true
 
@@ -96,25 +108,25 @@ def advance (t : Thread) : Thread :=
   | .relAll :: rest => { t with prog := rest, held := [] }
 
 /-- thread `i` takes a step -/
-def step (s : State) (i : Nat) : Option State :=
+def step (D : Defects) (s : State) (i : Nat) : Option State :=
   match s[i]? with
   | none => none
-  | some t => if enabled s t then some (s.set i (advance t)) else none
+  | some t => if enabled D s t then some (s.set i (advance t)) else none
 
-inductive Reachable (s0 : State) : State → Prop
-  | init : Reachable s0 s0
-  | step {s s' : State} {i : Nat} : Reachable s0 s → step s i = some s' → Reachable s0 s'
+inductive Reachable (D : Defects) (s0 : State) : State → Prop
+  | init : Reachable D s0 s0
+  | step {s s' : State} {i : Nat} : Reachable D s0 s → step D s i = some s' → Reachable D s0 s'
 
 /-- some thread has work left and no thread can move -/
-def deadlocked (s : State) : Bool := s.any (fun t => !t.finished) && s.all (fun t => !enabled s t)
+def deadlocked (D : Defects) (s : State) : Bool := s.any (fun t => !t.finished) && s.all (fun t => !enabled D s t)
 
 /-- runs a schedule (thread indices); stops at the first index whose thread cannot move -/
-def runSched : State → List Nat → State
+def runSched (D : Defects) : State → List Nat → State
   | s, [] => s
   | s, i :: is =>
-    match step s i with
+    match step D s i with
     | none => s
-    | some s' => runSched s' is
+    | some s' => runSched D s' is
 
 /-! ## Program shapes extracted from the code -/
 
